@@ -83,6 +83,7 @@ class Ctx:
         self.exhaustive = None
         self.rule = ""
         self.model_findings = []
+        self.unjudged = 0
 
     # ---------------------------------------------------------------- TLC
     def write(self, name, text):
@@ -196,6 +197,7 @@ class Ctx:
             if not acc or int(acc[-1].split()[0]) != cnt:
                 raise MachineryError("trace spec %s did not consume its trace (%s of %d):\n%s"
                                      % (module, acc, cnt, r.out[-3000:]))
+            self.unjudged += len(r.printed("UNJUDGED"))
             for line in r.printed("MISMATCH"):
                 eid, _, clause = line.partition(" ")
                 mism.setdefault(eid, []).append(clause)
@@ -261,6 +263,7 @@ class Ctx:
             "tlc_runs": self.tlc_runs[:40],
             "known_finding_hits": {k: v[1] for k, v in kf_hits.items()},
             "failing_cases": len(self.failures),
+            "events_left_unjudged_by_spec": self.unjudged,
         }
         if self.exhaustive is not None:
             cov["exhaustive"] = self.exhaustive
